@@ -83,6 +83,9 @@ def gen_plan(rng, tier, run):
         if "recipe" in t0:
             t0["path"] = ("D/" + t0["path"][2:] + "_" + "y" * 255)[:2 + rng.choice([255, 250, 243])]
     tree.append({"path": "OUT", "dir": True})
+    if files and rng.random() < 0.2:
+        # the output directory already holds a file named exactly like one of the PELs (a raw backup copy)
+        tree.append({"path": "OUT/" + rng.choice(files)["name"], "raw_hex": b"backup copy, not to be touched".hex()})
     tree.append({"path": "E", "dir": True})                       # a second, unrelated PEL directory
     for f in common.gen_store(rng, rng.randint(0, 2), style="bmc", max_sections=2):
         tree.append({"path": "E/" + f["name"], "recipe": f["recipe"]})
@@ -117,6 +120,9 @@ def gen_plan(rng, tier, run):
             op["arg"] = rng.choice(cands) if cands else "D/none"
         if m == "-jon":
             op["newdir"] = rng.choice(["NEW", "OUT/new", "NEW/deeper", "D/json"])
+        if m == "-d" and rng.random() < 0.12:
+            # the removal itself fails (read-only mount, immutable file): nothing else may be removed instead
+            op["faults"] = [{"on": "remove", "nth": 0, "kind": "error", "errno": rng.choice(["EACCES", "EIO"])}]
         if m in ("-j", "-jo") and rng.random() < 0.3:
             op["ext"] = ".pel"
         if m in ("-j", "-jo", "-jc") and rng.random() < 0.35:
